@@ -33,7 +33,9 @@ func (e *AutoEscapeExtension) Init(env *stick.Env) error {
 			// calling its methods would panic.
 			if r := reflect.ValueOf(val); r.Kind() == reflect.Ptr && r.IsNil() {
 				val = nil
-			} else if sval.IsSafe(ct) {
+			} else if safe, ok := isSafeFor(sval, ct); !ok {
+				val = nil // a struct that embeds a nil SafeValue
+			} else if safe {
 				return val
 			}
 		}
@@ -47,6 +49,18 @@ func (e *AutoEscapeExtension) Init(env *stick.Env) error {
 		return stick.NewSafeValue(escfn(stick.CoerceString(val)), ct)
 	}
 	return nil
+}
+
+// isSafeFor asks val whether it is safe for ct. A struct that embeds a nil
+// SafeValue satisfies the interface, and calling the promoted method
+// dereferences nil: ok is false then.
+func isSafeFor(val stick.SafeValue, ct string) (safe, ok bool) {
+	defer func() {
+		if recover() != nil {
+			safe, ok = false, false
+		}
+	}()
+	return val.IsSafe(ct), true
 }
 
 // NewAutoEscapeExtension returns an AutoEscapeExtension with Twig equivalent
